@@ -224,7 +224,30 @@ def law_nextpos(args):
     return None
 
 
+def law_neg_history(args):
+    """transforms are mutable: inverses handed out earlier must not be aliased with / invalidated by later mutation"""
+    t1, t2 = args
+    t = T(t1)
+    ident = Transform(Position(0, 0), F)
+    old = T(t1)
+    s = -t
+    t.position = P(t2[0])
+    t.orientation = ORI[t2[1]]
+    if -s != old:
+        return 'after mutating a transform, the negation of its earlier inverse is no longer the original value'
+    if t * (-t) != ident or (-t) * t != ident:
+        return 'after mutation, a transform times its negation is not the identity'
+    s.position = P(t2[0])
+    s.orientation = ORI[t2[1]]
+    if (-s) * s != ident:
+        return 'after mutating an inverse, its negation is not its inverse'
+    if -t != -T(t2):
+        return 'negation of a mutated transform differs from the negation of a fresh equal transform'
+    return None
+
+
 LAWS = {
+    'neg_history': law_neg_history,
     'orient': law_orient,
     'cyclic': law_cyclic,
     'action': law_action,
@@ -238,11 +261,41 @@ LAWS = {
 
 
 def replay(case):
+    if case['kind'] == 'history':
+        msg = None
+        for args in case['cases']:
+            msg = LAWS[case['law']](args)
+        return msg
     return LAWS[case['kind']](case['args'])
 
 
+def _norm(x):
+    return tuple(_norm(e) for e in x) if isinstance(x, (list, tuple)) else x
+
+
+def history_for(kind, args, N):
+    """the cases of law `kind` that precede (and include) `args` in enumeration order - only for the area law, whose
+    subjects (pose x area) are what a caching implementation would key on; other laws: the case alone"""
+    if kind != 'area':
+        return [args]
+    box = [(y, x) for y in range(-N, N + 1) for x in range(-N, N + 1)]
+    transforms = [(p, h) for p in box for h in HEADINGS]
+    areas = [((a, b), (c, d)) for a in range(-2, 3) for b in range(a, 3) for c in range(-2, 3) for d in range(c, 3)]
+    want = _norm(args)
+    out = []
+    for t in transforms:
+        if t[1] != want[0][1]:
+            continue
+        for a in areas:
+            out.append([t, a])
+            if _norm([t, a]) == want:
+                return out
+    return [args]
+
+
 def _work(shard):
-    """shard = list of (kind, iterable-spec); returns (counts, failures)"""
+    """shard = list of (kind, iterable-spec); returns (counts, failures); a failure remembers how many cases of its job
+    preceded it, so that a failure depending on earlier calls in the process can be re-run with its history"""
     counts = {}
     fails = []
     for kind, args_iter in shard:
@@ -252,7 +305,7 @@ def _work(shard):
             n += 1
             msg = law(args)
             if msg and len(fails) < 20:
-                fails.append((kind, args, msg))
+                fails.append((kind, args, msg, n))
         counts[kind] = counts.get(kind, 0) + n
     return counts, fails
 
@@ -279,6 +332,7 @@ def run(rep, tier, seed):
         jobs.append(('action', [[h, p, q] for p in positions for q in positions]))
     jobs.append(('action2', [[a, b, p] for a in HEADINGS for b in HEADINGS for p in positions]))
     jobs.append(('transform1', [[t] for t in tx_ext]))
+    jobs.append(('neg_history', [[a, b] for a in transforms for b in transforms[::7]]))
     for t1 in transforms:
         jobs.append(('transform3', _T3(t1, transforms)))
     areas = [
@@ -288,19 +342,30 @@ def run(rep, tier, seed):
         for c in range(-2, 3)
         for d in range(c, 3)
     ]
-    for chunk in shards(tx_ext, 16):
-        jobs.append(('area', [[t, a] for t in chunk for a in areas]))
+    # one job per heading: every position of the box meets every area in ONE process (a result cached under a colliding
+    # key - e.g. hash(-1) == hash(-2) - is only exposed when both poses are used in the same process)
+    for hd in HEADINGS:
+        jobs.append(('area', [[t, a] for t in tx_ext if t[1] == hd for a in areas]))
     shapes = [(h, w) for h in range(1, 5) for w in range(1, 5)]
     jobs.append(('grid', [[s, a, b] for s in shapes for a in HEADINGS for b in HEADINGS]))
     jobs.append(('nextpos', [[p, h, a] for p in positions for h in HEADINGS for a in R.ACTIONS]))
-    results = pmap(_work, shards(jobs, 64))
+    results = pmap(_work, [[j] for j in jobs], fresh=True)
     total = {}
     for counts, fails in results:
         for k, v in counts.items():
             total[k] = total.get(k, 0) + v
-        for kind, args, msg in fails:
+        for kind, args, msg, pos in fails:
             if LAWS[kind](args):  # re-execute before reporting
                 rep.violation({'kind': kind, 'args': args, 'sig': {'law': kind}}, f'{kind}{args}: {msg}')
+            else:
+                # not reproducible in isolation: re-run the preceding cases of the same law in order
+                hist = history_for(kind, args, N)
+                if replay({'kind': 'history', 'law': kind, 'cases': hist}):
+                    rep.violation({'kind': 'history', 'law': kind, 'cases': hist, 'sig': {'law': kind, 'history_dependent': True}},
+                                  f'{kind}{args}: {msg} [only after {len(hist) - 1} earlier evaluations of the same law in the process: '
+                                  'the result depends on earlier calls]')
+                else:
+                    raise SystemExit(f'INTERNAL: {kind}{args} failed in the exploration but not on re-execution')
     for k, v in total.items():
         rep.part(k, cases=v)
     rep.sample({'kind': 'transform3', 'args': [[[1, -2], 'R'], [[0, 2], 'L'], [[-1, 1], 'B']]})
